@@ -211,6 +211,15 @@ bool step0_wait_for2(Future<int>& a, Future<int>& b) {
 bool step0_wait_for_it(std::vector<Future<int>>& v) {
   return WaitFor(1s, v.begin(), v.end());
 }
+bool step0_wait_until_it(std::vector<Future<int>>& v) {
+  return WaitUntil(std::chrono::steady_clock::now() + 1s, v.begin(), v.size());
+}
+bool step0_wait_for_count(std::vector<Future<int>>& v) {
+  return WaitFor(1s, v.begin(), v.size());
+}
+void step0_wait_count(std::vector<Future<int>>& v) {
+  Wait(v.begin(), v.size());
+}
 bool step0_wait_until2(Future<int>& a, Future<int>& b) {
   return WaitUntil(std::chrono::steady_clock::now() + 1s, a, b);
 }
